@@ -67,6 +67,9 @@ FAMILIES = [
     ('solvB', [('Solvent', 'Octane'), 'Heptane'], 'family'),
     ('solvAI', [('Solvent', 'Hexane'), 'Heptane'], 'ideal'),
     ('solvBI', [('Solvent', 'Octane'), 'Heptane'], 'ideal'),
+    # activity coefficients AND real Poynting correction factors (K = pcf·Psat·γ/(φ·P), pcf depends on the pressure)
+    ('alcP', ['Methanol', 'Ethanol', '1-Propanol', '1-Butanol'], 'poynting'),
+    ('hcP', ['Hexane', 'Heptane', 'Octane', 'Toluene'], 'poynting'),
 ]
 
 
@@ -89,6 +92,9 @@ def setup():
         chems = tmo.Chemicals(objs + [O2, G], cache=True)
         if kind == 'ideal':
             th = tmo.Thermo(chems, Gamma=tmo.equilibrium.IdealActivityCoefficients, cache=False)
+        elif kind == 'poynting':
+            th = tmo.Thermo(chems, PCF=tmo.equilibrium.IdealGasPoyintingCorrectionFactors, cache=False)
+            kind = 'family'
         else:
             th = tmo.Thermo(chems, cache=False)
         THERMOS.append((th, ids, kind, name))
@@ -143,6 +149,18 @@ def setup():
         return v
     w_solve._verif = True
     vm.VLE._solve_v = w_solve
+
+    # numba sometimes fails with ReferenceError("underlying object has vanished") while SAVING a freshly compiled
+    # specialisation to its on-disk cache; the compiled function is in memory afterwards, so the call is simply repeated
+    # (auxiliary flashes of the adapter: reference states, brackets, replicas; the flash under test has its own retry)
+    orig_call = vm.VLE.__call__
+    def w_call(self, **kw):
+        for attempt in range(3):
+            try:
+                return orig_call(self, **kw)
+            except ReferenceError:
+                if attempt == 2 or REC is not None: raise
+    vm.VLE.__call__ = w_call
 
     orig_setup = vm.VLE._setup
     def w_setup(self, gas_conversion=None, liquid_conversion=None):
@@ -270,6 +288,8 @@ class Run:
         self.s = None; self.th = None; self.kind = None; self.ids = None
         self.last = None          # (snapshot before, pair, resolved a, resolved b) of the last vle op
         self.two_phase_solves = 0
+        self.last_hs_ok = True
+        self.ref_two = None
         self.last_products = None
         self.key = []
 
@@ -307,14 +327,41 @@ class Run:
             if len(l) != 2 or l.sum() <= 0 or g.sum() <= 0: raise Skip('x/y need a two-phase binary')
             return (l / l.sum()) if k == 'x' else (g / g.sum())
         self.ref_P = float(s.P)
+        self.ref_two = None
+        def two_phase(st):
+            l_, g_, *_ = vle_split(st)
+            return bool(l_.sum() > 0 and g_.sum() > 0)
         if ta == '@': a = cur(ka)
         elif ta[0] == '+': a = cur(ka) + float(ta[1:])
         elif ta[0] == '*': a = cur(ka) * float(ta[1:])
         else: a = float(ta)
         if tb == '@':
             b = cur(kb)
+            if kb in ('H', 'S'): self.ref_two = two_phase(s)
         elif tb[0] == '*' and kb in ('P', 'V', 'H', 'S'):
             b = cur(kb) * float(tb[1:])
+        elif tb[0] in 'bL' and ka == 'P' and kb in ('H', 'S'):
+            # H or S of the equilibrium state at the specified P and (bubble temperature of the condensable part + dT):
+            # with non-condensable gas present and dT < 0 this is the region of small vaporised fractions, where the
+            # gas alone keeps a vapour phase alive
+            c = restore(self.th, snapshot(s))
+            l, g, Fl, Fh, idx = vle_split(c)
+            if len(idx) == 0: raise Skip('nothing volatile')
+            chs = [self.th.chemicals.tuple[i] for i in idx]
+            zz = (l + g) / (l + g).sum()
+            bp = tmo.equilibrium.BubblePoint(chs, self.th)
+            Tb = float(bp.solve_Ty(zz, a)[0])
+            if tb[0] == 'L':
+                # relative to the lower end of the temperature bracket set_PH / set_PS use when gas is present
+                # (0.9·T_bubble + 0.1·Tmin of the package's VLE domain): boundary values of that bracket
+                Tb = 0.9 * Tb + 0.1 * float(bp.Tmin)
+                self.tags.append('spec:bracket-end%+d' % round(float(tb[1:])))
+            else:
+                self.tags.append('spec:bubbleT%+d' % (5 * round(float(tb[1:]) / 5)))
+            c.vle(T=Tb + float(tb[1:]), P=a)
+            b = float(c.H if kb == 'H' else c.S)
+            self.ref_P = float(c.P)
+            self.ref_two = two_phase(c)
         elif tb.startswith('v'):
             # H or S of the state with vaporised fraction `frac` at the specified T or P
             frac = float(tb[1:])
@@ -330,6 +377,7 @@ class Run:
                 c.vle(T=a, V=frac)
             b = float(c.H if kb == 'H' else c.S)
             self.ref_P = float(c.P)
+            self.ref_two = two_phase(c)
         else:
             b = float(tb)
         if isinstance(b, float) and not math.isfinite(b): raise Skip('non-finite specification')
@@ -348,6 +396,7 @@ class Run:
         except Exception as e:
             self.tags.append('skip-resolve-' + type(e).__name__); return
         ka, kb = PAIR_KW[pair]
+        self.last_hs_ok = self.ref_two is not False
         snap = snapshot(s)
         T0, P0 = float(s.T), float(s.P)
         l0, g0, Fl, Fh, idx = vle_split(s)
@@ -380,6 +429,7 @@ class Run:
             err = type(e).__name__
         finally:
             REC = None
+        self.last_out_of_iter = rec['nsolve'] >= int(vm.VLE.maxiter) + 1
         self.last = (snap, pair, a, b)
         self.last_products = None if err is not None else (arr(s.imol['l']).copy(), arr(s.imol['g']).copy(), float(s.T), float(s.P))
         self.key.append(pair)
@@ -495,7 +545,13 @@ class Run:
             # VLE.set_TH / set_TS bracket the pressure between the dew pressure and TWICE the bubble pressure of the
             # condensable part when non-condensable gas is present; if the stream at (T, 2·P_bubble) still has more
             # enthalpy (entropy) than specified, the solution lies above the bracket and the solver cannot reach it
-            if not (ka == 'T' and kb in ('H', 'S') and ncase == 'many' and Fl > 0): return ''
+            if not (ka == 'T' and kb in ('H', 'S') and ncase == 'many' and (Fl > 0 or Fh > 0)): return ''
+            if rec['nsolve'] >= int(vm.VLE.maxiter) + 1:
+                # with gas present H(P) (S(P)) at fixed T has a sharp knee where the condensable part starts to boil;
+                # IQ_interpolation (maxiter=20, checkiter=False) used all its iterations shrinking the bracket from one
+                # side and returned silently
+                return ':inert:solver-out-of-iterations'
+            if Fl == 0: return ''
             try:
                 chs = [th.chemicals.tuple[i] for i in idx]
                 pb = float(tmo.equilibrium.BubblePoint(chs, th).solve_Py(mol / F, a)[0])
@@ -505,7 +561,12 @@ class Run:
             except Exception:
                 pass
             return ''
-        if kb == 'H':
+        # quantifier: "H/S between the all-liquid and all-vapour values" — the target is the H (S) of a state in which
+        # the chemicals in equilibrium are present in both phases; targets taken from one-phase states are not judged
+        hs_ok = getattr(self, 'ref_two', None) is not False
+        self.last_hs_ok = hs_ok
+        if kb in ('H', 'S') and not hs_ok: self.tags.append('HS-target-not-two-phase')
+        if kb == 'H' and hs_ok:
             r = abs(float(s.H) - b) / Fm
             tol = 1e-6
             if ka == 'T' and r > tol and spec_ok:
@@ -514,7 +575,7 @@ class Run:
                 self.fail(f'H-not-reproduced:{pair}:{ncase}{suffix()}', f'specified H={b!r}, stream.H={float(s.H)!r} ({r:.3g} kJ/kg, allowed {tol:.3g}); T={T1}, P={P1}')
         s_noisy = any(th.chemicals.tuple[i].ID in S_NOISY for i in idx)
         if kb == 'S' and s_noisy: self.tags.append('S-noisy-skip')
-        if kb == 'S' and not s_noisy:
+        if kb == 'S' and not s_noisy and hs_ok:
             r = abs(float(s.S) - b) / Fm
             tol = 3e-4 if ka == 'P' else 2e-6
             if ka == 'T' and r > tol and spec_ok:
@@ -633,6 +694,7 @@ class Run:
         snap, pair, a, b = self.last
         ka, kb = PAIR_KW[pair]
         if kb in ('x', 'y'): return
+        if kb in ('H', 'S') and not self.last_hs_ok: return
         if kb == 'S' and any(c.ID in S_NOISY and (snap[0][i] + snap[1][i]) > 0 for i, c in enumerate(self.th.chemicals.tuple)):
             self.tags.append('S-noisy-skip'); return
         res = []
@@ -648,11 +710,13 @@ class Run:
         Ftot = (l1 + g1).sum()
         self.tags.append('scale')
         if not (280 <= T1 <= 450 and 2e4 <= P1 <= 1e6) or Ftot == 0: return
+        if not (280 <= Tk <= 450 and 2e4 <= Pk <= 1e6): return
         dev = max(np.abs(lk / k - l1).max(), np.abs(gk / k - g1).max()) / Ftot
         allowed = 2e-4
         if dev > allowed: allowed += 2 * self.resolution_spread(l1, g1, T1, P1, ka)
         if dev > allowed or abs(Tk - T1) > 5e-3 or abs(Pk - P1) > 1e-5 * P1 + 2.:
-            self.fail(f'scaling:{pair}', f'{pair} flash of k·feed (k={k}): products/k differ from products of the feed by {dev:.3g} of the total flow; T {T1} vs {Tk}, P {P1} vs {Pk}')
+            sfx = self.fallback_suffix(ka, kb, ((l1, g1, T1, P1), (lk / k, gk / k, Tk, Pk)))
+            self.fail(f'scaling:{pair}{sfx}', f'{pair} flash of k·feed (k={k}): products/k differ from products of the feed by {dev:.3g} of the total flow; T {T1} vs {Tk}, P {P1} vs {Pk}')
 
 
 def _resolution_spread(self, l1, g1, T1, P1, ka):
@@ -673,6 +737,27 @@ def _resolution_spread(self, l1, g1, T1, P1, ka):
 Run.resolution_spread = _resolution_spread
 
 
+def _fallback_suffix(self, ka, kb, results):
+    """P,H / P,S with non-condensable gas: the known bracket-end behaviours of set_PH / set_PS (target below the lowered
+    temperature bracket, or IQ_interpolation's "lucky guess" at the bracket end) leave a split that is NOT the equilibrium
+    split at the returned T and P (a uniform fraction of the vapour is condensed instead).  Which of the two paths is
+    taken depends on rounding, so two such flashes need not scale.  Recognised by re-flashing each result at its own T, P."""
+    if not (ka == 'P' and kb in ('H', 'S')): return ''
+    chems = self.th.chemicals
+    li = list(chems._light_indices)
+    for (l_, g_, T_, P_) in results:
+        if not li or (l_ + g_)[li].sum() <= 0: return ''
+        try:
+            c = restore(self.th, (l_, g_, T_, P_))
+            c.vle(T=T_, P=P_)
+        except Exception:
+            continue
+        if np.abs(arr(c.imol['g']) - g_).max() > 1e-4 * (l_ + g_).sum():
+            return ':gas:non-equilibrium-split-at-bracket-end'
+    return ''
+Run.fallback_suffix = _fallback_suffix
+
+
 def _rescale(self, t):
     """multiply every flow of THE SAME stream by k (the VLE object and whatever it remembers stay)"""
     self.s.scale(float(t[1]))
@@ -690,7 +775,9 @@ def _revle(self, t):
     snap, pair, a, b = self.last
     ka, kb = PAIR_KW[pair]
     if kb in ('x', 'y'): return
+    hs_ok = getattr(self, 'last_hs_ok', True)
     l1, g1, T1, P1 = self.last_products
+    out1 = getattr(self, 'last_out_of_iter', False)
     self.s.scale(k)
     bb = b * k if kb in ('H', 'S') else b
     nf = len(self.failures)
@@ -701,13 +788,18 @@ def _revle(self, t):
     lk, gk, Tk, Pk = self.last_products
     Ftot = (l1 + g1).sum()
     if not (280 <= T1 <= 450 and 2e4 <= P1 <= 1e6) or Ftot == 0: return
+    if not (280 <= Tk <= 450 and 2e4 <= Pk <= 1e6): return
     if kb == 'S' and any(c.ID in S_NOISY and (l1[i] + g1[i]) > 0 for i, c in enumerate(self.th.chemicals.tuple)):
         return
+    if kb in ('H', 'S') and not hs_ok: return
     dev = max(np.abs(lk / k - l1).max(), np.abs(gk / k - g1).max()) / Ftot
     allowed = 2e-4
     if dev > allowed: allowed += 2 * self.resolution_spread(l1, g1, T1, P1, ka)
     if dev > allowed or abs(Tk - T1) > 5e-3 or abs(Pk - P1) > 1e-5 * P1 + 2.:
-        self.fail(f'scaling-history:{pair}', f'{pair} flash, every flow of the same stream multiplied by k={k}, same {pair} flash again: '
+        sfx = self.fallback_suffix(ka, kb, ((l1, g1, T1, P1), (lk / k, gk / k, Tk, Pk)))
+        if ka == 'T' and kb in ('H', 'S') and (out1 or getattr(self, 'last_out_of_iter', False)):
+            sfx = ':inert:solver-out-of-iterations'     # one of the two T,H / T,S solves stopped at maxiter (known finding)
+        self.fail(f'scaling-history:{pair}{sfx}', f'{pair} flash, every flow of the same stream multiplied by k={k}, same {pair} flash again: '
                   f'products/k differ from the first products by {dev:.3g} of the total flow; T {T1} vs {Tk}, P {P1} vs {Pk}; '
                   f'vapour before {g1}, after/k {gk / k}')
 Run.revle = _revle
@@ -812,7 +904,7 @@ def gen_feed(rng, ti=None, nvol=None, inert=None):
     F = rng.choice([1.0, 10.0, 100.0, 37.5, 0.25])
     fl_ = [(c, round(F * f, 6)) for c, f in zip(sub, fr)]
     fg_ = []
-    inert = rng.random() < 0.35 if inert is None else inert
+    inert = rng.random() < 0.45 if inert is None else inert
     if inert:
         r = rng.random()
         if r < 0.6: fg_.append(('O2', round(F * rng.uniform(0.002, 0.05), 6)))
@@ -845,6 +937,19 @@ def gen_case(rng, ti=None):
             f'vle TS +{rng.choice([-6, 7])} v{round(rng.uniform(0.03, 0.97), 3)}',
             f'vle TV +{rng.choice([-6, 7])} {round(rng.uniform(0.03, 0.97), 4)}',
             f'vle PV *{rng.choice([0.8, 1.25])} {round(rng.uniform(0.03, 0.97), 4)}']
+    has_gas = 'O2=' in feed
+    def low_vap():
+        # non-condensable gas present: enthalpy / entropy of an equilibrium state below (or just above) the bubble
+        # temperature of the condensable part — the thin region of small vaporised fractions
+        dT = round(rng.uniform(-45.0, 12.0), 1)
+        if rng.random() < 0.5:
+            dT = f'L{round(rng.uniform(-6.0, 1.5), 2)}'      # around the lower end of the code's temperature bracket
+            return f'vle {rng.choice(["PH", "PH", "PS"])} {rng.choice(["@", "@", "*0.8", "*1.25", str(P)])} {dT}'
+        return f'vle {rng.choice(["PH", "PH", "PS"])} {rng.choice(["@", "@", "*0.8", "*1.25", str(P)])} b{dT}'
+    if has_gas and rng.random() < 0.35:
+        ops[-1] = low_vap().replace(' @ ', f' {P} ').replace(' *0.8 ', f' {P} ').replace(' *1.25 ', f' {P} ')   # on the fresh stream
+    if has_gas:
+        for _ in range(rng.randrange(1, 4)): ops.append(low_vap())
     if rng.random() < 0.5:
         ops.append('vle TP @ @')
         ops.append(f'revle {rng.choice([2.0, 0.25, 3.0, 10.0, 1.5])}')
@@ -902,8 +1007,24 @@ def spec_grid():
     return out
 
 
+def low_vap_grid():
+    """P,H and P,S on fresh streams holding 1–3 condensable chemicals + 2–5 % non-condensable gas, target = the
+    equilibrium state 40 … 0 K below the bubble temperature of the condensable part (and a few above)"""
+    feeds = ['feed 0 300.0 101325.0 l:Ethanol=10.0 g:O2=0.3', 'feed 2 300.0 101325.0 l:Water=10.0 g:O2=0.2',
+             'feed 0 300.0 101325.0 l:Methanol=5.0,Ethanol=5.0 g:O2=0.5', 'feed 1 300.0 101325.0 l:Hexane=4.0,Heptane=3.0,Octane=3.0 g:O2=0.3',
+             'feed 4 300.0 101325.0 l:Heptane=6.0,Toluene=4.0 g:O2=0.4']
+    out = []
+    for i, f in enumerate(feeds):
+        for P in (101325.0, 400000.0):
+            for dT in (-36, -30, -24, -18, -12, -6, 0, 6):
+                out.append(Case([f, f'vle PH {P} b{dT}', f'vle {"PS" if (dT // 6 + i) % 2 else "PH"} @ b{dT + 3}']))
+            for dT in (-4.0, -2.5, -1.5, -0.75, -0.25, 0.5):
+                out.append(Case([f, f'vle PH {P} L{dT}']))
+    return out
+
+
 def corpus():
-    return spec_grid() + [
+    return spec_grid() + low_vap_grid() + [
         # history on one stream: T,P flash – scale – the same T,P flash (z bit-identical for powers of two)
         Case(['feed 1 298.15 101325.0 l:Hexane=3.0,Heptane=4.0,Octane=3.0', 'vle TP 368.0 101325.0', 'revle 2.0', 'revle 0.25',
               'revle 3.0', 'vle PV 101325.0 0.4', 'vle TP @ @', 'revle 10.0', 'rescale 1.5', 'vle TP @ @']),
@@ -946,17 +1067,24 @@ def safe_tsat(chem, P):
 
 
 def own_bubble_dew(th, chems, z, Ps, T):
-    """Modified-Raoult bubble and dew pressure: P_b = Σ z γ(z) Psat;  P_d = 1 / Σ z/(γ(x) Psat) with x the dew liquid
-    (fixed point on x)."""
+    """Modified-Raoult bubble and dew pressure from the package's own γ and Poynting objects:
+    P_b = Σ z γ(z) pcf(P_b) Psat;  P_d = 1 / Σ z/(γ(x) pcf(P_d) Psat) with x the dew liquid (fixed points)."""
     gamma = th.Gamma(tuple(chems))
-    g = np.asarray(gamma(z, T), float) * np.ones(len(z))
+    pcf = th.PCF(tuple(chems))
+    one = np.ones(len(z))
+    g = np.asarray(gamma(z, T), float) * one
     Pbub = float((z * g * Ps).sum())
+    for _ in range(100):
+        Pn = float((z * g * np.asarray(pcf(T, Pbub, Ps), float) * one * Ps).sum())
+        done = abs(Pn - Pbub) <= 1e-13 * Pn
+        Pbub = Pn
+        if done: break
     x = z / Ps; x = x / x.sum()
     Pdew = float(1. / (z / Ps).sum())
-    for _ in range(200):
-        g = np.asarray(gamma(x, T), float) * np.ones(len(z))
-        Pnew = float(1. / (z / (g * Ps)).sum())
-        xn = z * Pnew / (g * Ps); xn = xn / xn.sum()
+    for _ in range(300):
+        k = np.asarray(gamma(x, T), float) * one * np.asarray(pcf(T, Pdew, Ps), float) * one * Ps
+        Pnew = float(1. / (z / k).sum())
+        xn = z * Pnew / k; xn = xn / xn.sum()
         done = abs(Pnew - Pdew) <= 1e-12 * Pnew and np.abs(xn - x).max() < 1e-13
         Pdew, x = Pnew, xn
         if done: break
